@@ -94,6 +94,8 @@ func charts(thorough bool) []*hx.ChartSpec {
 		seen[s] = true
 		out = append(out, s.spec(len(out)+1))
 	}
+	// a chart that renders no resource at all (every template switched off): upgrading to it must remove everything
+	out = append(out, chartSel{}.spec(len(out)+1))
 	return out
 }
 
@@ -267,7 +269,8 @@ func faultyConfig(tier string) *opspace.Config {
 	p := chartSel{A: 1, S: 1}.spec(101)        // {a, s}
 	q := chartSel{A: 2, W: 1}.spec(102)        // {a', w}: drops s, adds w
 	r := chartSel{A: 2, AP: 1, S: 2}.spec(103) // {a' keep, s'}
-	ops := []hx.Op{{Kind: "upgrade", Chart: q}, {Kind: "upgrade", Chart: p}, {Kind: "upgrade", Chart: r}, {Kind: "rollback"}, {Kind: "uninstall"}, {Kind: "uninstall", KeepHistory: true}}
+	q2 := chartSel{A: 1, W: 2}.spec(104) // {a, w'}: changes w, which a failed upgrade to q may already have created
+	ops := []hx.Op{{Kind: "upgrade", Chart: q}, {Kind: "upgrade", Chart: p}, {Kind: "upgrade", Chart: r}, {Kind: "upgrade", Chart: q2}, {Kind: "rollback"}, {Kind: "uninstall"}, {Kind: "uninstall", KeepHistory: true}}
 	cfg := &opspace.Config{
 		Property:  prop,
 		Drivers:   []string{"memory"},
